@@ -6,28 +6,66 @@ effect trace yields a durable image.
 namespace Juno.C13
 variable {S : Type}
 
-/-- What is known at an input boundary about the machine (`LiveInv`), the node and their relation. -/
-structure Ctx (M : Machine S) (c0 : Nat) (s : S) (E : List Entry) (b : Nat) (tr : List Effect)
-    (n : Node) : Prop where
+theorem liveRun_snoc (M : Machine S) (s : S) (ins : List Input) (i : Input) :
+    liveRun M s (ins ++ [i]) =
+      ((M.step (liveRun M s ins).1 i).1,
+        (liveRun M s ins).2 ++ effectsOf false (M.step (liveRun M s ins).1 i).2) := by
+  induction ins generalizing s with
+  | nil => simp [liveRun]
+  | cons j ins ih => simp [liveRun, ih, List.append_assoc]
+
+theorem loggedEntries_snoc (M : Machine S) (s : S) (ins : List Input) (i : Input) :
+    loggedEntries M s (ins ++ [i]) =
+      loggedEntries M s ins ++ walOf (M.step (liveRun M s ins).1 i).2 := by
+  induction ins generalizing s with
+  | nil => simp [loggedEntries, liveRun]
+  | cons j ins ih => simp [loggedEntries, liveRun, ih, List.append_assoc]
+
+theorem listenOK_snoc (M : Machine S) (s : S) (ins : List Input) (i : Input)
+    (h : ListenOK M s ins) (hi : M.started (liveRun M s ins).1 = true ∨ i = Input.start) :
+    ListenOK M s (ins ++ [i]) := by
+  induction ins generalizing s with
+  | nil => exact ⟨hi, trivial⟩
+  | cons j ins ih => exact ⟨h.1, ih _ h.2 hi⟩
+
+theorem RefRun.snoc {M : Machine S} {c0 : Nat} {insd : List Input} {sd : S} {Ed : List Entry}
+    {trd : List Effect} (h : RefRun M c0 insd sd Ed trd) (i : Input)
+    (hi : M.started sd = true ∨ i = Input.start) :
+    RefRun M c0 (insd ++ [i]) (M.step sd i).1 (Ed ++ walOf (M.step sd i).2)
+      (trd ++ effectsOf false (M.step sd i).2) := by
+  obtain ⟨ok, rfl, rfl, rfl⟩ := h
+  exact ⟨listenOK_snoc M _ insd i ok hi, by rw [liveRun_snoc], by rw [loggedEntries_snoc],
+    by rw [liveRun_snoc]⟩
+
+/-- What is known at an input boundary: the machine is in the state `s` of the uncrashed reference
+run over `insd` (log `E`, trace `tr`); `hist` is the real history of effects (all process instances
+so far), whose votes are among the reference run's; the node holds all of `E`, nothing but entries
+pending, chain one below the machine's height. -/
+structure Ctx (M : Machine S) (c0 : Nat) (insd : List Input) (s : S) (E : List Entry) (b : Nat)
+    (tr : List Effect) (hist : List Effect) (n : Node) : Prop where
+  ref : RefRun M c0 insd s E tr
   inv : LiveInv M s E b tr
   chain : n.chainHeight = b
   viewF : ∃ p, p ≤ b ∧ view n.store.flushed = (p, above p (entriesOfRecs n.store.flushed))
   pend : ∃ pe, n.store.pending = pe.map Rec.entry ∧ entriesOfRecs n.store.flushed ++ pe = E ∧
     ∀ x ∈ pe, b < x.height
-  twin : s = (replayRun M (M.init (c0 + 1)) E).1
-  dur : Durable M c0 n tr
+  hv : ∀ v ∈ votesOf hist, v ∈ votesOf tr
+  dur : Durable M c0 n hist
 
 theorem Ctx.init (M : Machine S) (hs : ReplaySafe M) (c0 : Nat) :
-    Ctx M c0 (M.init (c0 + 1)) [] c0 [] (Node.fresh c0) where
+    Ctx M c0 [] (M.init (c0 + 1)) [] c0 [] [] (Node.fresh c0) where
+  ref := ⟨trivial, rfl, rfl, rfl⟩
   inv := liveInv_init M hs c0
   chain := rfl
   viewF := ⟨0, Nat.zero_le _, by simp [Node.fresh, Store.empty, view, entriesOfRecs, above]⟩
   pend := ⟨[], by simp [Node.fresh, Store.empty], by simp [Node.fresh, Store.empty, entriesOfRecs],
     by intro x hx; cases hx⟩
-  twin := by simp [replayRun]
-  dur := ⟨M.init (c0 + 1), [], [], 0, (liveInv_init M hs c0).toW, Nat.zero_le _,
-    by simp [Node.fresh, Store.empty, view, above],
-    by simp [Node.fresh, Store.empty, entriesOfRecs], by intro v hv; exact hv, by simp [replayRun]⟩
+  hv := by intro v hv; exact hv
+  dur := ⟨M.init (c0 + 1), [], [], 0, [], ⟨trivial, rfl, rfl, rfl⟩, (liveInv_init M hs c0).toW,
+    by rw [hs.height_init]; exact liveInv_init M hs c0,
+    by rw [hs.height_init]; exact Nat.le_refl _, by rw [hs.height_init]; exact Nat.le_succ _,
+    Nat.zero_le _, by simp [Node.fresh, Store.empty, view, above],
+    by simp [Node.fresh, Store.empty, entriesOfRecs], by intro v hv; exact hv⟩
 
 theorem votesOf_cons_append (e : Entry) (q : List Effect) :
     votesOf (Effect.append e :: q) = votesOf q := rfl
@@ -37,20 +75,23 @@ theorem committed_cons_wal (e : Entry) (ar : List Action) :
 
 /-- One live input: every prefix of its effects leaves a durable image, and the boundary context
 holds again afterwards. -/
-theorem chunk (M : Machine S) (hs : ReplaySafe M) (c0 : Nat) (s : S) (E : List Entry) (b : Nat)
-    (tr : List Effect) (n : Node) (ctx : Ctx M c0 s E b tr n) (i : Input)
+theorem chunk (M : Machine S) (hs : ReplaySafe M) (c0 : Nat) (insd : List Input) (s : S)
+    (E : List Entry) (b : Nat) (tr hist : List Effect) (n : Node)
+    (ctx : Ctx M c0 insd s E b tr hist n) (i : Input)
     (hi : M.started s = true ∨ i = Input.start) :
     (∀ q post, effectsOf false (M.step s i).2 = q ++ post →
-      Durable M c0 (applyEffects n q) (tr ++ q)) ∧
-    Ctx M c0 (M.step s i).1 (E ++ walOf (M.step s i).2) (M.height (M.step s i).1 - 1)
-      (tr ++ effectsOf false (M.step s i).2) (applyEffects n (effectsOf false (M.step s i).2)) := by
+      Durable M c0 (applyEffects n q) (hist ++ q)) ∧
+    Ctx M c0 (insd ++ [i]) (M.step s i).1 (E ++ walOf (M.step s i).2)
+      (M.height (M.step s i).1 - 1) (tr ++ effectsOf false (M.step s i).2)
+      (hist ++ effectsOf false (M.step s i).2) (applyEffects n (effectsOf false (M.step s i).2)) := by
+  have href' := ctx.ref.snoc i hi
   have hbh := ctx.inv.height
   rcases hs.logged_or_inert s i hi with ⟨h1, h2⟩ | ⟨e, ar, h2, he, hh, hstart, hw⟩
   · -- ignored input
     have hb : M.height s - 1 = b := by omega
-    rw [h1, h2]
-    simp only [effectsOf, walOf, List.append_nil, applyEffects, List.foldl_nil, hb]
-    refine ⟨?_, ctx⟩
+    rw [h1, h2] at href' ⊢
+    simp only [effectsOf, walOf, List.append_nil, applyEffects, List.foldl_nil, hb] at href' ⊢
+    refine ⟨?_, ⟨href', ctx.inv, ctx.chain, ctx.viewF, ctx.pend, ctx.hv, ctx.dur⟩⟩
     intro q post hsplit
     obtain ⟨hq, _⟩ := List.append_eq_nil_iff.1 hsplit.symm
     subst hq
@@ -62,10 +103,9 @@ theorem chunk (M : Machine S) (hs : ReplaySafe M) (c0 : Nat) (s : S) (E : List E
     have heff : effectsOf false (M.step s i).2 = Effect.append e :: effectsOf false ar := by
       rw [h2]; simp [effectsOf, Action.requiresWALFlush]
     have hcomm : committed (M.step s i).2 = committed ar := by rw [h2]; rfl
-    -- the twin state
-    have htwin : (M.step s i).1 = (replayRun M (M.init (c0 + 1)) (E ++ [e])).1 := by
-      rw [replayRun_append, ← ctx.twin]
-      simp [replayRun, replayStep_of_not_stale M s e hh, he]
+    -- the reference run, one input further
+    have href1 : RefRun M c0 (insd ++ [i]) (M.step s i).1 (E ++ [e])
+        (tr ++ effectsOf false (M.step s i).2) := by rw [hwal] at href'; exact href'
     -- the node right after the append
     have hpr : n.store.pruned = p := by simp [Store.pruned, hview]
     have hA : PhA n e (applyEffect n (Effect.append e)) := by
@@ -105,55 +145,71 @@ theorem chunk (M : Machine S) (hs : ReplaySafe M) (c0 : Nat) (s : S) (E : List E
     have hnocommitH : committed ar = false → M.height (M.step s i).1 = b + 1 := by
       intro hc
       rw [hs.no_commit_height s i (hcomm.trans hc)]; exact hbh
+    have hbounds : b + 1 ≤ M.height (M.step s i).1 ∧ M.height (M.step s i).1 ≤ b + 2 := by
+      cases hc : committed ar
+      · have := hnocommitH hc; omega
+      · have := hcommitH hc; omega
     -- durable images for the phases
-    have durB : ∀ n' q', PhB n e n' →
-        Durable M c0 n' (tr ++ Effect.append e :: q') → True := fun _ _ _ _ => trivial
     have hvotesPrefix : ∀ q' post, effectsOf false ar = q' ++ post →
-        ∀ v ∈ votesOf (tr ++ Effect.append e :: q'),
+        ∀ v ∈ votesOf (hist ++ Effect.append e :: q'),
           v ∈ votesOf (tr ++ effectsOf false (M.step s i).2) := by
       intro q' post hsp v hv
       rw [heff, hsp]
       rw [votesOf_append, List.mem_append] at hv ⊢
       rcases hv with hv | hv
-      · exact Or.inl hv
+      · exact Or.inl (ctx.hv v hv)
       · right
         rw [votesOf_cons_append] at hv ⊢
         rw [votesOf_append, List.mem_append]
         exact Or.inl hv
     have mkDur : ∀ (n' : Node) (q' post : List Effect), effectsOf false ar = q' ++ post →
-        Where n e (b + 1) ar true q' post n' → Durable M c0 n' (tr ++ Effect.append e :: q') := by
+        Where n e (b + 1) ar true q' post n' → Durable M c0 n' (hist ++ Effect.append e :: q') := by
       intro n' q' post hsp hwh
       rcases hwh with ⟨hPA, _, hv0, _⟩ | ⟨hPB, _⟩ | ⟨hPC, hc, _⟩ | ⟨hPD, hc, _⟩ | ⟨hPE, hc⟩
       · -- nothing flushed yet: the image is the one before the input
         refine ctx.dur.congr (by rw [hPA.1]) hPA.2 ?_
         rw [votesOf_append, votesOf_cons_append, hv0, List.append_nil]
-      · refine ⟨(M.step s i).1, E ++ [e], tr ++ effectsOf false (M.step s i).2, p, ?_, ?_, ?_, ?_,
-          hvotesPrefix q' post hsp, htwin⟩
+      · refine ⟨(M.step s i).1, E ++ [e], tr ++ effectsOf false (M.step s i).2, p, insd ++ [i], href1,
+          ?_, inv', ?_, ?_, ?_, ?_, ?_, hvotesPrefix q' post hsp⟩
         · rw [hPB.2, ctx.chain]; exact hW
+        · rw [hPB.2, ctx.chain]; exact hbounds.1
+        · rw [hPB.2, ctx.chain]; exact hbounds.2
         · rw [hPB.2, ctx.chain]; exact hp
         · rw [hPB.1]; exact hvFB
         · rw [hPB.1]; exact heFB
-      · have hbase : M.height (M.step s i).1 - 1 = b + 1 := by have := hcommitH hc; omega
-        rw [hbase] at inv'
-        refine ⟨(M.step s i).1, E ++ [e], tr ++ effectsOf false (M.step s i).2, p, ?_, ?_, ?_, ?_,
-          hvotesPrefix q' post hsp, htwin⟩
-        · rw [hPC.2]; exact inv'.toW
+      · have hH := hcommitH hc
+        have hbase : M.height (M.step s i).1 - 1 = b + 1 := by omega
+        have invW := inv'.toW
+        rw [hbase] at invW
+        refine ⟨(M.step s i).1, E ++ [e], tr ++ effectsOf false (M.step s i).2, p, insd ++ [i], href1,
+          ?_, inv', ?_, ?_, ?_, ?_, ?_, hvotesPrefix q' post hsp⟩
+        · rw [hPC.2]; exact invW
+        · rw [hPC.2]; omega
+        · rw [hPC.2]; omega
         · rw [hPC.2]; omega
         · rw [hPC.1]; exact hvFB
         · rw [hPC.1]; exact heFB
-      · have hbase : M.height (M.step s i).1 - 1 = b + 1 := by have := hcommitH hc; omega
-        rw [hbase] at inv'
-        refine ⟨(M.step s i).1, E ++ [e], tr ++ effectsOf false (M.step s i).2, p, ?_, ?_, ?_, ?_,
-          hvotesPrefix q' post hsp, htwin⟩
-        · rw [hPD.2]; exact inv'.toW
+      · have hH := hcommitH hc
+        have hbase : M.height (M.step s i).1 - 1 = b + 1 := by omega
+        have invW := inv'.toW
+        rw [hbase] at invW
+        refine ⟨(M.step s i).1, E ++ [e], tr ++ effectsOf false (M.step s i).2, p, insd ++ [i], href1,
+          ?_, inv', ?_, ?_, ?_, ?_, ?_, hvotesPrefix q' post hsp⟩
+        · rw [hPD.2]; exact invW
+        · rw [hPD.2]; omega
+        · rw [hPD.2]; omega
         · rw [hPD.2]; omega
         · rw [hPD.1]; exact hvFB
         · rw [hPD.1]; exact heFB
-      · have hbase : M.height (M.step s i).1 - 1 = b + 1 := by have := hcommitH hc; omega
-        rw [hbase] at inv'
-        refine ⟨(M.step s i).1, E ++ [e], tr ++ effectsOf false (M.step s i).2, b + 1, ?_, ?_, ?_, ?_,
-          hvotesPrefix q' post hsp, htwin⟩
-        · rw [hPE.2]; exact inv'.toW
+      · have hH := hcommitH hc
+        have hbase : M.height (M.step s i).1 - 1 = b + 1 := by omega
+        have invW := inv'.toW
+        rw [hbase] at invW
+        refine ⟨(M.step s i).1, E ++ [e], tr ++ effectsOf false (M.step s i).2, b + 1, insd ++ [i], href1,
+          ?_, inv', ?_, ?_, ?_, ?_, ?_, hvotesPrefix q' post hsp⟩
+        · rw [hPE.2]; exact invW
+        · rw [hPE.2]; omega
+        · rw [hPE.2]; omega
         · rw [hPE.2]; exact Nat.le_refl _
         · rw [hPE.1, view_append_prune _ _ hpFB, hvFB]
           show (b + 1, above (b + 1) (above p (E ++ [e]))) = _
@@ -172,14 +228,16 @@ theorem chunk (M : Machine S) (hs : ReplaySafe M) (c0 : Nat) (s : S) (E : List E
         rw [applyEffects_cons]
         exact mkDur _ q' post hsplit (hwhere q' post hsplit)
     · -- the boundary after the input
-      rw [hwal, heff, applyEffects_cons]
       have hfull := hwhere (effectsOf false ar) [] (by simp)
       have hdurFull := mkDur _ (effectsOf false ar) [] (by simp) hfull
-      rw [heff] at inv'
+      have hvFull := hvotesPrefix (effectsOf false ar) [] (by simp)
+      rw [hwal]
+      rw [heff] at inv' href1 hvFull ⊢
+      rw [applyEffects_cons]
       rcases hfull with ⟨hPA, _, _, hnc⟩ | ⟨hPB, hnc⟩ | ⟨_, _, hne⟩ | ⟨_, _, hne⟩ | ⟨hPE, hc⟩
       · have hbase : M.height (M.step s i).1 - 1 = b := by have := hnocommitH (hnc rfl); omega
         rw [hbase] at inv' ⊢
-        exact ⟨inv', by rw [hPA.2]; exact ctx.chain, ⟨p, hp, by rw [hPA.1]; exact hview⟩,
+        exact ⟨href1, inv', by rw [hPA.2]; exact ctx.chain, ⟨p, hp, by rw [hPA.1]; exact hview⟩,
           ⟨pe ++ [e], by rw [hPA.1]; simp [hpend], by rw [hPA.1]; simp [← hpe, List.append_assoc],
             by
               intro x hx
@@ -187,73 +245,72 @@ theorem chunk (M : Machine S) (hs : ReplaySafe M) (c0 : Nat) (s : S) (E : List E
               rcases hx with hx | rfl
               · exact hpeh x hx
               · omega⟩,
-          htwin, hdurFull⟩
+          hvFull, hdurFull⟩
       · have hbase : M.height (M.step s i).1 - 1 = b := by have := hnocommitH (hnc rfl); omega
         rw [hbase] at inv' ⊢
-        exact ⟨inv', by rw [hPB.2]; exact ctx.chain,
+        exact ⟨href1, inv', by rw [hPB.2]; exact ctx.chain,
           ⟨p, hp, by rw [hPB.1, heFB]; exact hvFB⟩,
           ⟨[], by rw [hPB.1]; rfl, by rw [hPB.1, heFB]; simp, by intro x hx; cases hx⟩,
-          htwin, hdurFull⟩
+          hvFull, hdurFull⟩
       · exact absurd rfl hne
       · exact absurd rfl hne
       · have hbase : M.height (M.step s i).1 - 1 = b + 1 := by have := hcommitH hc; omega
         rw [hbase] at inv' ⊢
         have hent : entriesOfRecs (FB n e ++ [Rec.prune (b + 1)]) = E ++ [e] := by
           rw [entriesOfRecs_append, heFB]; simp [entriesOfRecs]
-        exact ⟨inv', hPE.2,
+        exact ⟨href1, inv', hPE.2,
           ⟨b + 1, Nat.le_refl _, by
             rw [hPE.1, hent, view_append_prune _ _ hpFB, hvFB]
             show (b + 1, above (b + 1) (above p (E ++ [e]))) = _
             rw [above_above p (b + 1) _ (by omega)]⟩,
           ⟨[], by rw [hPE.1]; rfl, by rw [hPE.1, hent]; simp, by intro x hx; cases hx⟩,
-          htwin, hdurFull⟩
+          hvFull, hdurFull⟩
 
-/-- **Every prefix of the effect trace of a live run yields a durable image.** -/
+/-- **Every prefix of the effect trace of a live run yields a durable image**, from any boundary
+context (first boot or a recovered process). -/
 theorem durable_all (M : Machine S) (hs : ReplaySafe M) (c0 : Nat) :
-    ∀ (ins : List Input) (s : S) (E : List Entry) (b : Nat) (tr : List Effect) (n : Node),
-      Ctx M c0 s E b tr n → ListenOK M s ins →
+    ∀ (ins : List Input) (insd : List Input) (s : S) (E : List Entry) (b : Nat)
+      (tr hist : List Effect) (n : Node),
+      Ctx M c0 insd s E b tr hist n → ListenOK M s ins →
       ∀ pre post, (liveRun M s ins).2 = pre ++ post →
-        Durable M c0 (applyEffects n pre) (tr ++ pre) := by
+        Durable M c0 (applyEffects n pre) (hist ++ pre) := by
   intro ins
   induction ins with
   | nil =>
-    intro s E b tr n ctx _ pre post hsplit
+    intro insd s E b tr hist n ctx _ pre post hsplit
     obtain ⟨hq, _⟩ := List.append_eq_nil_iff.1 (by simpa [liveRun] using hsplit.symm)
     subst hq
     simpa [applyEffects] using ctx.dur
   | cons i rest ih =>
-    intro s E b tr n ctx ok pre post hsplit
+    intro insd s E b tr hist n ctx ok pre post hsplit
     obtain ⟨hi, okr⟩ := ok
-    obtain ⟨hpre, hctx⟩ := chunk M hs c0 s E b tr n ctx i hi
+    obtain ⟨hpre, hctx⟩ := chunk M hs c0 insd s E b tr hist n ctx i hi
     simp only [liveRun] at hsplit
     rcases List.append_eq_append_iff.1 hsplit with ⟨a', h1, h2⟩ | ⟨c', h1, h2⟩
     · -- the crash point lies in a later input
       rw [h1, applyEffects_append, ← List.append_assoc]
-      exact ih _ _ _ _ _ hctx okr a' post h2
+      exact ih _ _ _ _ _ _ _ hctx okr a' post h2
     · -- the crash point lies within this input's effects
       exact hpre pre c' h1
 
-end Juno.C13
-
-namespace Juno.C13
-variable {S : Type}
-
 /-- The boundary context holds after every run. -/
 theorem ctx_all (M : Machine S) (hs : ReplaySafe M) (c0 : Nat) :
-    ∀ (ins : List Input) (s : S) (E : List Entry) (b : Nat) (tr : List Effect) (n : Node),
-      Ctx M c0 s E b tr n → ListenOK M s ins →
-      Ctx M c0 (liveRun M s ins).1 (E ++ loggedEntries M s ins) (M.height (liveRun M s ins).1 - 1)
-        (tr ++ (liveRun M s ins).2) (applyEffects n (liveRun M s ins).2) := by
+    ∀ (ins : List Input) (insd : List Input) (s : S) (E : List Entry) (b : Nat)
+      (tr hist : List Effect) (n : Node),
+      Ctx M c0 insd s E b tr hist n → ListenOK M s ins →
+      Ctx M c0 (insd ++ ins) (liveRun M s ins).1 (E ++ loggedEntries M s ins)
+        (M.height (liveRun M s ins).1 - 1) (tr ++ (liveRun M s ins).2)
+        (hist ++ (liveRun M s ins).2) (applyEffects n (liveRun M s ins).2) := by
   intro ins
   induction ins with
   | nil =>
-    intro s E b tr n ctx _
+    intro insd s E b tr hist n ctx _
     have : M.height s - 1 = b := by have := ctx.inv.height; omega
     simpa [liveRun, loggedEntries, applyEffects, this] using ctx
   | cons i rest ih =>
-    intro s E b tr n ctx ok
+    intro insd s E b tr hist n ctx ok
     obtain ⟨hi, okr⟩ := ok
-    have := ih _ _ _ _ _ (chunk M hs c0 s E b tr n ctx i hi).2 okr
+    have := ih _ _ _ _ _ _ _ (chunk M hs c0 insd s E b tr hist n ctx i hi).2 okr
     simpa [liveRun, loggedEntries, applyEffects_append, List.append_assoc] using this
 
 /-- A regular stop (`Run` returns, the deferred `Close` flushes the pending batch) after any run:
@@ -264,7 +321,7 @@ theorem stopped_image (M : Machine S) (hs : ReplaySafe M) (c0 : Nat) (ins : List
     n.chainHeight + 1 = M.height (liveRun M (M.init (c0 + 1)) ins).1 ∧
     ∃ p, p ≤ n.chainHeight ∧
       (view n.store.flushed).2 = above p (loggedEntries M (M.init (c0 + 1)) ins) := by
-  have ctx := ctx_all M hs c0 ins _ [] c0 [] (Node.fresh c0) (Ctx.init M hs c0) ok
+  have ctx := ctx_all M hs c0 ins [] _ [] c0 [] [] (Node.fresh c0) (Ctx.init M hs c0) ok
   simp only [List.nil_append] at ctx
   obtain ⟨p, hp, hview⟩ := ctx.viewF
   obtain ⟨pe, hpend, hpe, hpeh⟩ := ctx.pend
